@@ -23,6 +23,21 @@ ASSUMPTIONS = [
 ]
 
 
+def fa(signed, n_bits, n_frac):
+    """(args, kwargs) for a format: by position, by the documented parameter
+    names, or mixed - chosen by the format itself."""
+    style = (n_bits + n_frac + (1 if signed else 0)) % 3
+    if style == 0:
+        return (signed, n_bits, n_frac), {}
+    if style == 1:
+        return (), {"signed": signed, "n_bits": n_bits, "n_frac": n_frac}
+    return (signed,), {"n_frac": n_frac, "n_bits": n_bits}
+
+
+def fr(n_frac):
+    return ((n_frac,), {}) if n_frac % 2 else ((), {"n_frac": n_frac})
+
+
 def limits(signed, n_bits):
     if signed:
         return -(1 << (n_bits - 1)), (1 << (n_bits - 1)) - 1
@@ -110,7 +125,7 @@ def check_scalar(case):
     vals = [unhex(s) for s in case["values"]]
     lo, hi = limits(signed, n_bits)
     with sut("float_to_fp"):
-        f = type_casts.float_to_fp(signed, n_bits, n_frac)
+        f = type_casts.float_to_fp(*fa(signed, n_bits, n_frac)[0], **fa(signed, n_bits, n_frac)[1])
         got = [f(v) for v in vals]
     det = {"signed": signed, "n_bits": n_bits, "n_frac": n_frac}
     nt = False
@@ -138,7 +153,7 @@ def check_scalar(case):
         with warnings.catch_warnings():
             warnings.simplefilter("ignore")
             with sut("float_to_fix"):
-                g = type_casts.float_to_fix(signed, n_bits, n_frac)
+                g = type_casts.float_to_fix(*fa(signed, n_bits, n_frac)[0], **fa(signed, n_bits, n_frac)[1])
                 old = [g(v) for v in vals]
         for v, o, n in zip(vals, old, got):
             require(int(o) == int(n) % (1 << n_bits), "deprecated "
@@ -183,8 +198,8 @@ def check_roundtrip(case):
     signed, n_bits, n_frac = case["signed"], case["n_bits"], case["n_frac"]
     det = {"signed": signed, "n_bits": n_bits, "n_frac": n_frac}
     with sut("float_to_fp/fp_to_float"):
-        f = type_casts.float_to_fp(signed, n_bits, n_frac)
-        g = type_casts.fp_to_float(n_frac)
+        f = type_casts.float_to_fp(*fa(signed, n_bits, n_frac)[0], **fa(signed, n_bits, n_frac)[1])
+        g = type_casts.fp_to_float(*fr(n_frac)[0], **fr(n_frac)[1])
     for k in case["ks"]:
         with sut("fp_to_float"):
             v = g(k)
@@ -200,7 +215,8 @@ def check_roundtrip(case):
             with warnings.catch_warnings():
                 warnings.simplefilter("ignore")
                 with sut("fix_to_float"):
-                    old = type_casts.fix_to_float(signed, n_bits, n_frac)(
+                    a_, k_ = fa(signed, n_bits, n_frac)
+                    old = type_casts.fix_to_float(*a_, **k_)(
                         k % (1 << n_bits))
             require(float(old) == float(v), "deprecated fix_to_float "
                     "disagrees with fp_to_float", dict(det, k=k,
@@ -208,7 +224,7 @@ def check_roundtrip(case):
     if n_bits in (8, 16, 32, 64):
         arr = np.array(case["ks"], dtype=NP_DTYPES[(signed, n_bits)])
         with sut("NumpyFixToFloatConverter"):
-            f2f = type_casts.NumpyFixToFloatConverter(n_frac)
+            f2f = type_casts.NumpyFixToFloatConverter(*fr(n_frac)[0], **fr(n_frac)[1])
             out = f2f(arr)
         require(out.shape == arr.shape, "NumpyFixToFloatConverter changes "
                 "the shape", det)
@@ -251,7 +267,13 @@ def strat_numpy(draw, tier=None):
             "int_dtype": draw(st.sampled_from(
                 [None] * 6 + ["int8", "int16", "int32", "int64", "uint8",
                               "uint32"])),
-            "layout": draw(st.sampled_from(["C", "C", "F", "T", "strided"]))}
+            "layout": draw(st.sampled_from(["C", "C", "F", "T", "strided"])),
+            # the same values repeated to fill a large array (weight
+            # matrices, whole populations): long rows, many rows, one row
+            "big": draw(st.sampled_from(
+                [None] * 11 + [[2, 70000], [70000, 2], [1, 100000], [140000],
+                               [65537], [1, 65537], [65536], [3, 300, 300],
+                               [2, 350, 200], [300, 300, 2], [65537, 1]]))}
 
 
 def check_numpy(case):
@@ -295,8 +317,8 @@ def check_numpy(case):
         warnings.simplefilter("ignore")
         with np.errstate(all="ignore"):
             with sut("NumpyFloatToFixConverter"):
-                conv = type_casts.NumpyFloatToFixConverter(signed, n_bits,
-                                                           n_frac)
+                a_, k_ = fa(signed, n_bits, n_frac)
+                conv = type_casts.NumpyFloatToFixConverter(*a_, **k_)
                 out = conv(arr)
                 kept = np.array(out, copy=True)
                 # a converter object is re-usable: other values of the same
@@ -335,7 +357,7 @@ def check_numpy(case):
     require(list(out.shape) == list(case["shape"]), "shape of the converted "
             "array differs from the input's", dict(det, got=list(out.shape)))
     with sut("float_to_fp"):
-        f = type_casts.float_to_fp(signed, n_bits, n_frac)
+        f = type_casts.float_to_fp(*fa(signed, n_bits, n_frac)[0], **fa(signed, n_bits, n_frac)[1])
     nt = False
     flat_in = arr.reshape(-1).tolist()
     flat_out = out.reshape(-1).tolist()
@@ -347,8 +369,33 @@ def check_numpy(case):
                 dict(det, value=v.hex(), value_repr=repr(v), array=int(o),
                      scalar=int(f(v)), expected=want))
         nt = nt or _near_end(signed, n_bits, n_frac, v)
+    big = case.get("big")
+    if big and flat_in:
+        # conversion is element by element: a large array filled with the
+        # values just checked converts to the results just checked
+        big_in = np.resize(np.asarray(arr).reshape(-1), big)
+        big_before = big_in.copy()
+        with warnings.catch_warnings():
+            warnings.simplefilter("ignore")
+            with np.errstate(all="ignore"):
+                with sut("NumpyFloatToFixConverter (large array)"):
+                    big_out = conv(big_in)
+        bdet = dict(det, big_shape=big)
+        require(isinstance(big_out, np.ndarray) and
+                list(big_out.shape) == list(big) and
+                big_out.dtype == out.dtype, "shape or dtype of a large "
+                "converted array differs from the input's / the format's",
+                bdet)
+        want_big = np.resize(np.asarray(out).reshape(-1), big)
+        bad = np.flatnonzero(big_out.reshape(-1) != want_big.reshape(-1))
+        require(bad.size == 0, "array converter disagrees with the scalar "
+                "conversion in a large array",
+                dict(bdet, first_bad_index=int(bad[0]) if bad.size else None))
+        require(np.array_equal(big_before, big_in),
+                "NumpyFloatToFixConverter modified its (large) input", bdet)
     return {"nontrivial": nt and len(flat_in) > 0,
-            "classes": ["bits%d" % n_bits, "ndim%d" % len(case["shape"]),
+            "classes": (["large-array"] if big and flat_in else []) +
+                       ["bits%d" % n_bits, "ndim%d" % len(case["shape"]),
                         "layout-" + layout] +
                        (["float32"] if case["float32"] else []) +
                        (["dtype-" + idt] if idt else []) +
